@@ -616,6 +616,8 @@ class Interp:
         elif base == "Mul":
             cs = [la * lb, la * hb, ha * lb, ha * hb]
             mlo, mhi = min(cs), max(cs)
+            if a.vid == b.vid:
+                mlo = 0 if la <= 0 <= ha else min(la * la, ha * ha)     # a square
             prov = ("mul", (a.vid, b.vid), None)
             if lb == hb and lb > 0:
                 scale = (lb, a.vid)
@@ -1078,6 +1080,8 @@ class Interp:
                 else:
                     cs = [la * lb, la * hb, ha * lb, ha * hb]
                     lo, hi = min(cs), max(cs)
+                    if a == b:
+                        lo = 0 if la <= 0 <= ha else min(la * la, ha * ha)
                 olo, ohi = st.itv[z]
                 nlo, nhi = max(lo, olo), min(hi, ohi)
                 if nlo > nhi:
